@@ -335,6 +335,79 @@ func checkC05(c *Ctx) {
 	// ---------------- C05-STOP: a failed parse leaves no live coroutine behind the next load
 	c.checkParserStopOrder("C05-STOP")
 
+	// ---------------- C05-MEMO: a failed evaluation leaves no memoised result behind
+	c.checkForcedOnlyOnSuccess("C05-MEMO")
+
+	// ---------------- C05-PAIR: what a compilation pushes on the loop stack is popped on every way out, errors included
+	{
+		loopF := c.field("Zlisp", "loopstack")
+		push := c.fn("Stack.Push")
+		pop := c.fn("Stack.Pop")
+		nPush := 0
+		if loopF != nil && push != nil && pop != nil {
+			for _, f := range c.zygoFuncs() {
+				for _, ci := range methodCallsOnField(f, loopF) {
+					if ci.Common().StaticCallee() != push {
+						continue
+					}
+					nPush++
+					pushIn := ci.(ssa.Instruction)
+					// a deferred pop registered right after the push, or a pop before every later return
+					deferred := false
+					var pops []ssa.Instruction
+					eachInstr(f, func(b *ssa.BasicBlock, i int, in ssa.Instruction) {
+						switch x := in.(type) {
+						case *ssa.Defer:
+							if x.Call.StaticCallee() == pop && len(x.Call.Args) > 0 {
+								if _, ok := loadOfField(x.Call.Args[0], loopF); ok && dominatesInstr(pushIn, x) {
+									// no return between the push and the defer
+									deferred = true
+									for _, r := range returnsOf(f) {
+										if dominatesInstr(pushIn, r) && !dominatesInstr(x, r) {
+											deferred = false
+										}
+									}
+								}
+							}
+						case *ssa.Call:
+							if x.Call.StaticCallee() == pop && len(x.Call.Args) > 0 {
+								if _, ok := loadOfField(x.Call.Args[0], loopF); ok {
+									pops = append(pops, x)
+								}
+							}
+						}
+					})
+					okPair := deferred
+					where := pushIn.Pos()
+					if !deferred {
+						okPair = len(pops) > 0
+						for _, r := range returnsOf(f) {
+							if !dominatesInstr(pushIn, r) {
+								continue
+							}
+							popped := false
+							for _, p := range pops {
+								if dominatesInstr(p, r) {
+									popped = true
+								}
+							}
+							if !popped {
+								okPair = false
+								where = r.Pos()
+							}
+						}
+					}
+					c.check(okPair, "C05-PAIR", fnName(f), "loop stack push is popped on every exit", where,
+						"the entry pushed on the compile-time loop stack is removed on every return that follows the push, error returns included",
+						"a return after the push (an error while compiling the loop's parts) leaves the loop record on the interpreter's loop stack: no restore covers that stack, so a later stray break/continue outside every loop compiles against the dead loop instead of being rejected")
+				}
+			}
+		}
+		if nPush == 0 {
+			c.undecided("C05-PAIR", "Generator.GenerateForLoop", "loop stack push", token.NoPos, "no push on the compile-time loop stack found")
+		}
+	}
+
 	// ---------------- C05-RESET
 	if pt := c.mustFn("C05-RESET", "Parser.ParseTokens"); pt != nil {
 		r1 := c.fn("Parser.Reset")
